@@ -42,6 +42,7 @@ def _defaulted(prog, f, X, fld, at):
 
 
 def r_none(prog, tier):
+    from ..core import expr_guards
     obs = []
     funcs = sorted(prog.modules['treeoutput'].funcs.values(), key=lambda x: x.fq) + [prog.func('trees', 'get_label')]
     nuse = 0
@@ -64,29 +65,45 @@ def r_none(prog, tier):
             if isinstance(p, ast.Compare) and any(isinstance(c, ast.Constant) and c.value is None
                                                   for c in [p.left] + p.comparators):
                 continue
+            # `X.data[f] or DEFAULT` supplies the default itself
+            if isinstance(p, ast.BoolOp) and isinstance(p.op, ast.Or) and p.values[0] is n and len(p.values) >= 2:
+                continue
             try:
                 at = cfg.node_of(n)
             except AnalysisError:
                 continue
             for fld in flds:
                 nuse += 1
+                slot = "%s.data['%s']" % (X, fld)
                 why = _defaulted(prog, f, X, fld, at)
                 if why is None:
-                    # same boolean expression: X.data[f] is not None and X.data[f].startswith(...)
-                    q = n
-                    while q in parents and why is None:
-                        pq = parents[q]
-                        if isinstance(pq, ast.BoolOp) and isinstance(pq.op, ast.And):
-                            idx = [i for i, v in enumerate(pq.values) if v is q or any(x is q for x in ast.walk(v))]
-                            for v in pq.values[:idx[0] if idx else 0]:
-                                for (ce, pol) in split_assumes(v, True):
-                                    if norm_test(ce, pol) == ('none', "%s.data['%s']" % (X, fld), False):
-                                        why = 'guarded in the same condition by `%s`' % unparse(ce)
-                        if isinstance(pq, ast.stmt):
-                            break
-                        q = pq
+                    for g in expr_guards(f, n):
+                        if g == ('none', slot, False) or g == ('truthy', slot, True):
+                            why = 'guarded in the same expression'
+                verdict = True if why is not None else False
+                if why is None:
+                    # anything that may have supplied the default in a form this rule does not model?
+                    root = root_name(n.value.value)
+                    stores = []
+                    for m in cfg.eval_nodes():
+                        if m.kind == 'stmt' and isinstance(m.ast, (ast.Assign, ast.AugAssign)) and (m.id == at or cfg.can_reach(m.id, at)):
+                            for t in (m.ast.targets if isinstance(m.ast, ast.Assign) else [m.ast.target]):
+                                if isinstance(t, ast.Subscript) and isinstance(t.value, ast.Attribute) and t.value.attr == 'data':
+                                    ks = data_key(prog, f, t)
+                                    if ks is None or fld in ks:
+                                        stores.append(m)
+                                elif isinstance(t, ast.Attribute) and t.attr == 'data':
+                                    stores.append(m)
+                    opaque = prog.opaque_calls(f, [root] if root else [], before=at)
+                    tests = [g for g in expr_guards(f, n) + [x[0] for x in facts_at(cfg, at)]
+                             if fld in str(g) and g[0] in ('opaque', 'cmp', 'in')]
+                    if stores or opaque or tests:
+                        verdict = None
+                        why = 'no recognised default, but %s may supply one' % (
+                            'a store to the field' if stores else ('the call `%s`' % unparse(opaque[0][1])[:40] if opaque
+                                                                    else 'the condition %s' % (tests[0],)))
                 obs.append(Ob('R-NONE', f.fq, 'use of optional field `%s.data[%r]` happens after it was defaulted'
-                              % (X, fld), why is not None, why or
+                              % (X, fld), verdict, why or
                               'the field may be None here (bracket trees have no lemma, TIGER trees may lack morph/'
                               'lemma, API-built trees no edge): it is written as "None" or crashes the writer',
                               construct='none:%s:%s:%s' % (X, fld, unparse(parents.get(n, n))[:50]), line=n.lineno))
@@ -95,17 +112,74 @@ def r_none(prog, tier):
 
 # ------------------------------------------------------------------------------------ R-ESC / R-VOCAB / R-TABS
 
-def _fmt_args(call):
-    """[(format string, [arg exprs])] for stream.write(FMT % ARGS) / write(FMT)."""
-    if not call.args:
-        return None
-    a = call.args[0]
+def _fmt_of(a):
+    """(format string with %s/%d/%r specs, [arg exprs]) for  FMT % ARGS | FMT | FMT.format(ARGS) | f-string."""
     if isinstance(a, ast.BinOp) and isinstance(a.op, ast.Mod) and const_str(a.left) is not None:
         args = list(a.right.elts) if isinstance(a.right, ast.Tuple) else [a.right]
         return const_str(a.left), args
     if const_str(a) is not None:
         return const_str(a), []
+    if isinstance(a, ast.Call) and isinstance(a.func, ast.Attribute) and a.func.attr == 'format' \
+            and const_str(a.func.value) is not None and not a.keywords:
+        fmt = const_str(a.func.value)
+        if re.sub(r'\{\}', '', fmt).count('{') == 0 and fmt.count('{}') == len(a.args):
+            return fmt.replace('%', '%%').replace('{}', '%s'), list(a.args)
+        if all(re.fullmatch(r'\{(\d*)(:[sd])?\}', m) for m in re.findall(r'\{[^}]*\}', fmt)):
+            specs = re.findall(r'\{(\d*)(?::([sd]))?\}', fmt)
+            if all(x[0] == '' for x in specs) and len(specs) == len(a.args):
+                out = re.sub(r'\{(\d*)(?::([sd]))?\}', lambda m: '%' + (m.group(2) or 's'), fmt.replace('%', '%%'))
+                return out, list(a.args)
+        return None
+    if isinstance(a, ast.JoinedStr):
+        fmt = ''
+        args = []
+        for x in a.values:
+            if isinstance(x, ast.Constant):
+                fmt += str(x.value).replace('%', '%%')
+            elif isinstance(x, ast.FormattedValue):
+                spec = 's'
+                if x.format_spec is not None:
+                    t = const_str(x.format_spec.values[0]) if len(x.format_spec.values) == 1 else None
+                    if t in ('d', 's'):
+                        spec = t
+                    else:
+                        return None
+                fmt += '%' + spec
+                args.append(x.value)
+        return fmt, args
+    if isinstance(a, ast.BinOp) and isinstance(a.op, ast.Add):
+        l, r = _fmt_of(a.left), _fmt_of(a.right)
+        if l is not None and r is not None:
+            return l[0] + r[0], l[1] + r[1]
     return None
+
+
+def _fmt_args(call):
+    """[(format string, [arg exprs])] for stream.write(FMT % ARGS) / write(FMT) and equivalent spellings."""
+    if not call.args:
+        return None
+    return _fmt_of(call.args[0])
+
+
+def _raw_field_reads(e):
+    """`X.data[...]` loads inside e that are not inside a quoteattr(...) call."""
+    out = []
+
+    def walk(n, quoted):
+        if isinstance(n, ast.Call) and unparse(n.func) in ('quoteattr', 'saxutils.quoteattr', 'xml.sax.saxutils.quoteattr',
+                                                          'escape', 'saxutils.escape'):
+            quoted = True
+        if isinstance(n, ast.Subscript) and isinstance(n.value, ast.Attribute) and n.value.attr == 'data' and not quoted:
+            if const_str(n.slice) not in ('num', 'sid'):
+                out.append(n)
+        for c in ast.iter_child_nodes(n):
+            walk(c, quoted)
+    walk(e, False)
+    return out
+
+
+def _is_quote(v):
+    return isinstance(v, ast.Call) and unparse(v.func) in ('quoteattr', 'saxutils.quoteattr', 'xml.sax.saxutils.quoteattr')
 
 
 def r_esc(prog, tier):
@@ -118,14 +192,14 @@ def r_esc(prog, tier):
         if not (isinstance(n, ast.Call) and unparse(n.func) == '%s.write' % stream):
             continue
         fa = _fmt_args(n)
-        if fa is None:
-            obs.append(Ob('R-ESC', f.fq, 'XML is written through literal format strings', False,
-                          '`%s`' % unparse(n)[:60], construct='esc?:' + unparse(n)[:60], line=n.lineno))
+        if fa is None or len(re.findall(r'%[sdr]', fa[0].replace('%%', ''))) != len(fa[1]):
+            raw = _raw_field_reads(n)
+            obs.append(Ob('R-ESC', f.fq, 'XML is written through literal format strings', False if raw else None,
+                          ('node field `%s` written without quoteattr()' % unparse(raw[0])) if raw else
+                          'format of `%s` not recognised' % unparse(n)[:60], construct='esc?:' + unparse(n)[:60], line=n.lineno))
             continue
         fmt, args = fa
-        specs = re.findall(r'%[sdr]', fmt)
-        if len(specs) != len(args):
-            continue
+        specs = re.findall(r'%[sdr]', fmt.replace('%%', ''))
         at = cfg.node_of(n)
         for spec, a in zip(specs, args):
             if spec != '%s':
@@ -150,27 +224,35 @@ def r_esc(prog, tier):
                     if isinstance(s2, ast.Subscript) and unparse(s2).endswith(".data['word']"):
                         X = unparse(s2.value.value)
                 ok = False
+                anywhere = False
                 for m in cfg.eval_nodes():
-                    if m.kind == 'stmt' and cfg.dominates(m.id, n.id) and m.id != n.id:
-                        for s3 in walk_own(m.ast):
-                            if isinstance(s3, ast.Call) and prog.callee(s3, f) == ('trees', 'replace_chars') \
-                                    and len(s3.args) == 2 and unparse(s3.args[0]) == X \
-                                    and unparse(s3.args[1]) == 'trees.BRACKETS':
-                                ok = True
+                    for root in cfg.exprs(m.id):
+                        for s3 in ast.walk(root):
+                            if isinstance(s3, ast.Call) and prog.callee(s3, f) == ('trees', 'replace_chars'):
+                                anywhere = True
+                                if m.kind == 'stmt' and cfg.dominates(m.id, n.id) and m.id != n.id \
+                                        and len(s3.args) == 2 and unparse(s3.args[0]) == X \
+                                        and unparse(s3.args[1]) == 'trees.BRACKETS':
+                                    ok = True
+                verdict = True if ok else False
+                if not ok and (anywhere or prog.opaque_calls(f, [root_name(ast.parse(X, mode='eval').body)] if X else [], before=n.id)
+                               or 'replace' in unparse(sub)):
+                    verdict = None
                 obs.append(Ob('R-ESC', f.fq, 'the token `%s.data[\'word\']` is written after its parentheses were '
-                              'mapped to the documented names' % X, ok,
+                              'mapped to the documented names' % X, verdict,
                               'dominated by trees.replace_chars(%s, trees.BRACKETS)' % X if ok else
-                              'a token containing ( or ) is written verbatim into the bracketing',
+                              ('a token containing ( or ) is written verbatim into the bracketing' if verdict is False else
+                               'the replacement is done in a form this rule does not model'),
                               construct='esc-brackets', line=n.lineno))
     if found == 0:
         raise Unrecognised('write_brackets_subtree writes no token')
     return obs, {'xml_string_sinks': nsinks}
 
 
-def _escaped(prog, f, a, at):
+def _escaped(prog, f, a, at, depth=0):
     if isinstance(a, ast.Constant):
         return True, 'literal'
-    if isinstance(a, ast.Call) and unparse(a.func) == 'quoteattr':
+    if _is_quote(a):
         return True, 'quoteattr(...)'
     if isinstance(a, ast.Subscript) and isinstance(a.value, ast.Name) and a.value.id in f.locals:
         # local table all of whose stores are quoteattr(...) values
@@ -180,15 +262,34 @@ def _escaped(prog, f, a, at):
             if isinstance(n, ast.Assign) and isinstance(n.targets[0], ast.Subscript) \
                     and isinstance(n.targets[0].value, ast.Name) and n.targets[0].value.id == tbl:
                 stores.append(n.value)
-        if stores and all(isinstance(v, ast.Call) and unparse(v.func) == 'quoteattr' for v in stores):
+            if isinstance(n, ast.Assign) and isinstance(n.targets[0], ast.Name) and n.targets[0].id == tbl:
+                if isinstance(n.value, ast.DictComp):
+                    stores.append(n.value.value)
+                elif isinstance(n.value, ast.Dict):
+                    stores.extend(n.value.values)
+                elif isinstance(n.value, ast.Call) and unparse(n.value.func) == 'dict' and not n.value.args:
+                    stores.extend(k.value for k in n.value.keywords)
+                else:
+                    stores.append(n.value)
+        if stores and all(_is_quote(v) for v in stores):
             return True, 'entry of `%s`, which holds quoteattr(...) values only' % tbl
+        raw = [r for v in stores for r in _raw_field_reads(v)]
+        if raw:
+            return False, 'entry of `%s`, which receives the node field `%s` without quoteattr()' % (tbl, unparse(raw[0]))
+        return None, 'entries of `%s` not all recognised' % tbl
     if isinstance(a, ast.Name):
-        d = single_def(f, a.id, at)
-        if d and d[0] != 'param' and isinstance(d[1], ast.Call) and unparse(d[1].func) == 'quoteattr':
-            return True, 'local bound to quoteattr(...)'
+        from ..values import value_cases
+        cs = value_cases(f, a.id, at) if a.id in f.locals else []
+        if cs and all(c.kind == 'value' for c in cs) and depth < 3:
+            res = [_escaped(prog, f, c.value, c.node, depth + 1) for c in cs]
+            if all(r[0] is True for r in res):
+                return True, 'local bound to %s' % res[0][1]
+            bad = [r for r in res if r[0] is False]
+            if bad:
+                return False, bad[0][1]
+        return None, 'origin of `%s` not recognised' % a.id
     if isinstance(a, ast.Subscript) and isinstance(a.value, ast.Attribute) and a.value.attr == 'data':
         # node field: every reaching store of it in this function must be quoteattr(...)
-        slot = unparse(a)
         fld = const_str(a.slice)
         if fld in ('num', 'sid'):
             return True, 'integer field (node number / sentence id)'
@@ -197,12 +298,17 @@ def _escaped(prog, f, a, at):
             if isinstance(n, ast.Assign) and isinstance(n.targets[0], ast.Subscript) \
                     and unparse(n.targets[0].value) == unparse(a.value):
                 ks = data_key(prog, f, n.targets[0])
-                if ks and fld in ks:
+                if ks is None or fld in ks:
                     stores.append(n.value)
-        if stores and isinstance(stores[-1], ast.Call) and unparse(stores[-1].func) == 'quoteattr':
+        if stores and _is_quote(stores[-1]):
             return True, 'field was replaced by its quoteattr(...) form before'
+        if stores and not all(isinstance(v, ast.Constant) or unparse(v).startswith('trees.DEFAULT_') for v in stores):
+            return None, 'the field is rewritten before in a form this rule does not model'
         return False, 'node field written into an attribute value without quoteattr(): &, <, " break the XML'
-    return False, 'not a literal and not passed through quoteattr()'
+    raw = _raw_field_reads(a)
+    if raw:
+        return False, 'node field `%s` reaches the XML without quoteattr()' % unparse(raw[0])
+    return None, 'neither a literal nor a recognised quoteattr() value'
 
 
 def _string_consts(prog, f):
@@ -212,18 +318,26 @@ def _string_consts(prog, f):
 def r_vocab(prog, tier):
     obs = []
     w_elems, w_attrs = set(), set()
+    w_open = False
     for nm in ('tigerxml', 'tigerxml_begin', 'tigerxml_end'):
         f = prog.func('treeoutput', nm)
         for n in walk_own(f.node):
             if isinstance(n, ast.Call) and unparse(n.func).endswith('.write'):
                 fa = _fmt_args(n)
                 if not fa:
+                    w_open = True          # something is written whose text this rule cannot see
                     continue
                 fmt, args = fa
                 w_elems |= set(re.findall(r'<(\w+)', fmt))
                 w_attrs |= set(re.findall(r'(\w+)=', fmt))
-                if fmt.startswith('%s=') and args and const_str(args[0]):
-                    w_attrs.add(const_str(args[0]))
+                for m in re.finditer(r'(<|\b)?%s=', fmt):
+                    idx = len(re.findall(r'%[sdr]', fmt[:m.start()].replace('%%', '')))
+                    if idx < len(args) and const_str(args[idx]):
+                        w_attrs.add(const_str(args[idx]))
+                    else:
+                        w_open = True      # attribute name computed at run time
+                if re.search(r'<%s', fmt):
+                    w_open = True
     r_elems, r_attrs = set(), set()
     for nm in ('tigerxml_build_tree', 'tigerxml'):
         f = prog.func('treeinput', nm)
@@ -237,10 +351,12 @@ def r_vocab(prog, tier):
         raise Unrecognised('TIGER-XML reader vocabulary not found (%s / %s)' % (sorted(r_elems), sorted(r_attrs)))
     for e in sorted(r_elems):
         obs.append(Ob('R-VOCAB', 'treeoutput.tigerxml', 'element <%s> the reader looks for is written by the writer' % e,
-                      e in w_elems, 'writer elements %s' % sorted(w_elems), construct='elem:' + e, nontrivial=False))
+                      True if e in w_elems else (None if w_open else False), 'writer elements %s' % sorted(w_elems),
+                      construct='elem:' + e, nontrivial=False))
     for a in sorted(r_attrs):
         obs.append(Ob('R-VOCAB', 'treeoutput.tigerxml', 'attribute %s= the reader looks for is written by the writer' % a,
-                      a in w_attrs, 'writer attributes %s' % sorted(w_attrs), construct='attr:' + a, nontrivial=False))
+                      True if a in w_attrs else (None if w_open else False), 'writer attributes %s' % sorted(w_attrs),
+                      construct='attr:' + a, nontrivial=False))
     # the reader reads each node field from the attribute the writer stores it in
     pairs_r = {}
     f = prog.func('treeinput', 'tigerxml_build_tree')
@@ -285,12 +401,26 @@ def r_tabs(prog, tier):
     if not rets:
         raise Unrecognised('export_tabs has no return')
     for r in rets:
-        s = const_str(r.value) if r.value is not None else None
+        v = r.value
+        s = const_str(v) if v is not None else None
         ok = s is not None and re.match(r'^\t+$', s) is not None
+        verdict = True if ok else None
+        why = 'literal of %d tab(s)' % len(s) if ok else 'separator expression not recognised'
+        if not ok and s is not None:
+            verdict, why = False, 'the separator %r is not a run of tabs' % s
+        if not ok and isinstance(v, ast.BinOp) and isinstance(v.op, ast.Mult):
+            tab, k = (v.left, v.right) if const_str(v.left) is not None else (v.right, v.left)
+            if const_str(tab) == '\t':
+                if isinstance(k, ast.Constant) and isinstance(k.value, int):
+                    verdict = k.value >= 1
+                    why = '%d tab(s)' % k.value
+                elif 'max(' in unparse(k):
+                    verdict, why = None, 'computed number of tabs with a lower bound: not evaluated'
+                else:
+                    verdict, why = False, 'the number of tabs `%s` is computed from the field length without a lower ' \
+                                          'bound: for long fields it is zero and two columns run together' % unparse(k)
         obs.append(Ob('R-TABS', f.fq, 'export fields are separated by at least one tab whatever their length: `%s`'
-                      % unparse(r), ok, 'literal of %d tab(s)' % len(s) if ok else
-                      'the separator is computed: for long fields it can be empty and two columns run together',
-                      construct='tabs:' + unparse(r), line=r.lineno))
+                      % unparse(r), verdict, why, construct='tabs:' + unparse(r), line=r.lineno))
     return obs, {}
 
 
@@ -314,42 +444,73 @@ def r_guard(prog, tier):
                     outs.append((n, sub))
     if not outs:
         raise Unrecognised('treeoutput.brackets writes nothing')
+    def _mentions_gap(fa):
+        return any(isinstance(t, str) and ('gap' in t or 'disc' in t or 'continuous' in t) for t in fa[1:])
     for (n, sub) in outs:
         facts = [x[0] for x in facts_at(cfg, n.id)]
         ok = any(c in facts for c in cont)
+        verdict = True if ok else False
+        why = 'dominated by `not %s > 0`' % G if ok else \
+            'a discontinuous tree (also a skipped one) reaches this write and comes out as a scrambled bracketing'
+        if not ok:
+            related = [fa for fa in facts if _mentions_gap(fa)]
+            if any(d in facts for d in disc):
+                why = 'this write happens exactly for trees with gap degree > 0'
+            elif related or [c_ for c_ in prog.opaque_calls(f, [tree], before=n.id)
+                             if (prog.callee(c_[1], f) or ('?',))[0] not in ('treeanalysis', 'trees', 'treeoutput')]:
+                verdict = None
+                why = 'guard %s not recognised' % (related[:1] or 'delegated to a helper')
         obs.append(Ob('R-GUARD/BRACKETS', f.fq, 'output `%s` happens only for a tree of gap degree 0' % unparse(sub)[:50],
-                      ok, 'dominated by `not %s > 0`' % G if ok else
-                      'a discontinuous tree (also a skipped one) reaches this write and comes out as a scrambled '
-                      'bracketing', construct='guard-br:' + unparse(sub)[:50], line=n.lineno))
+                      verdict, why, construct='guard-br:' + unparse(sub)[:50], line=n.lineno))
     raises = [n for n in cfg.eval_nodes() if n.kind == 'stmt' and isinstance(n.ast, ast.Raise)]
     ok = False
+    partial = False
     for r in raises:
         facts = [x[0] for x in facts_at(cfg, r.id)]
         if any(d in facts for d in disc) and ('haskey', f.kwarg, 'brackets_skipdisco', False) in facts \
                 and unparse(r.ast.exc).startswith('ValueError('):
             ok = True
+        elif any(_mentions_gap(fa) for fa in facts) or any('skipdisco' in str(fa) for fa in facts):
+            partial = True
+    verdict = True if ok else (None if (partial or [c_ for c_ in prog.opaque_calls(f, [tree])
+                                                    if (prog.callee(c_[1], f) or ('?',))[0] not in ('treeanalysis', 'trees', 'treeoutput')])
+                               else False)
+    if not ok and raises and not partial:
+        verdict = None
     obs.append(Ob('R-GUARD/BRACKETS', f.fq, 'a discontinuous tree is refused with ValueError unless brackets_skipdisco '
-                  'is given', ok, 'raise under gap degree > 0 and not skipdisco' if ok else 'no such raise',
+                  'is given', verdict, 'raise under gap degree > 0 and not skipdisco' if ok else
+                  ('the function never raises: discontinuous trees are never refused' if verdict is False else
+                   'a raise exists but its condition is not recognised'),
                   construct='guard-br-raise', line=f.node.lineno))
     # ---- LoPar refuses non-context-free grammars before opening any file
     f = prog.func('grammaroutput', 'lopar')
     cfg = f.cfg
     G = f.params[0]
-    tests = [n for n in cfg.eval_nodes() if n.kind == 'test'
-             and norm_test(n.ast, True) == ('opaque', 'grammaranalysis.is_contextfree(%s)' % G, False)]
-    ok = False
-    why = 'no `if not grammaranalysis.is_contextfree(%s): raise`' % G
-    if tests:
-        t = tests[0]
-        tr = [s for s in cfg.succ[t.id] if cfg.nodes[s].kind == 'assume' and cfg.nodes[s].pol is False]
-        raises_ = tr and all(cfg.nodes[x].kind == 'stmt' and isinstance(cfg.nodes[x].ast, ast.Raise)
-                             for s in tr for x in cfg.succ[s])
-        opens = [n for n in cfg.eval_nodes() if n.kind == 'with']
-        dom = opens and all(cfg.dominates(t.id, o.id) for o in opens)
-        ok = bool(raises_ and dom and cfg.always_with(cfg.entry, t.id))
-        why = 'the test dominates every open and its failing branch raises' if ok else \
-            'test found but: raises %s, dominates all opens %s' % (bool(raises_), bool(dom))
-    obs.append(Ob('R-GUARD/LOPAR', f.fq, 'a grammar that is not context-free is refused before anything is written', ok, why,
+    opens = [n for n in cfg.eval_nodes() if n.kind == 'with' or any(
+        isinstance(x, ast.Call) and unparse(x.func) in ('io.open', 'open') for r_ in cfg.exprs(n.id) for x in ast.walk(r_))]
+    calls = [n for n in cfg.eval_nodes() for r_ in cfg.exprs(n.id) for x in ast.walk(r_)
+             if isinstance(x, ast.Call) and prog.callee(x, f) == ('grammaranalysis', 'is_contextfree')]
+    verdict = None
+    why = 'context-freeness test not recognised'
+    if not opens:
+        raise Unrecognised('grammaroutput.lopar opens no file')
+    if not calls and not prog.opaque_calls(f, [G]):
+        verdict, why = False, 'is_contextfree(%s) is never consulted: any LCFRS is written as if it were a PCFG' % G
+    elif calls:
+        guarded = all(any(fa in (('opaque', 'grammaranalysis.is_contextfree(%s)' % G, True),)
+                          for fa in [x[0] for x in facts_at(cfg, o.id)]) for o in opens)
+        raising = [r for r in cfg.eval_nodes() if r.kind == 'stmt' and isinstance(r.ast, ast.Raise)
+                   and ('opaque', 'grammaranalysis.is_contextfree(%s)' % G, False) in [x[0] for x in facts_at(cfg, r.id)]]
+        if guarded and raising:
+            verdict, why = True, 'every open happens only after is_contextfree(%s) held; its failure raises' % G
+        elif guarded and not raising:
+            verdict, why = None, 'opens are guarded but no raise under the failing test was found'
+        else:
+            first_call = min(c.id for c in calls)
+            early = [o for o in opens if not any(cfg.dominates(c.id, o.id) for c in calls)]
+            if early and not any(fa[0] == 'opaque' for o in early for fa in [x[0] for x in facts_at(cfg, o.id)]):
+                verdict, why = False, 'a file is opened (line %d) before / without the context-freeness test' % early[0].lineno
+    obs.append(Ob('R-GUARD/LOPAR', f.fq, 'a grammar that is not context-free is refused before anything is written', verdict, why,
                   construct='guard-lopar', line=f.node.lineno))
     # ---- gap oracle
     f = prog.func('transitions', 'gap')
@@ -394,8 +555,9 @@ def r_guard(prog, tier):
     closure_tests = set()
     for a in unary_app:
         inner = [cfg.nodes[l] for l in a.loops if l != outer[0].id]
-        ok = bool(inner) and inner[-1].kind == 'test' and 'len(trees.children(' in unparse(inner[-1].ast) \
-            and '== 1' in unparse(inner[-1].ast)
+        ok = bool(inner) and inner[-1].kind == 'test' and any(
+            fa[0] == 'cmp' and fa[2] == '==' and fa[3] == '1' and fa[1].startswith('len(') and 'children' in fa[1]
+            for fa in [norm_test(e_, p_) for (e_, p_) in split_assumes(inner[-1].ast, True)])
         if ok:
             closure_tests.add(inner[-1].id)
             # the loop advances: d[0] = d[0].parent in every iteration
@@ -403,12 +565,16 @@ def r_guard(prog, tier):
                       and unparse(m.ast.value) == unparse(m.ast.targets[0]) + '.parent'
                       and cfg.in_every_iteration(inner[-1].id, m.id) for m in cfg.eval_nodes())
             ok = adv
+        verdict = True if ok else None
+        if not ok and not inner:
+            verdict = False       # positive: the emission is not inside any loop but the main one
         obs.append(Ob('R-GUARD/GAP', f.fq, 'UNARY transitions are emitted by a closure loop (one per stacked unary node)',
-                      ok, 'inside `while %s` which climbs one node per iteration' % unparse(inner[-1].ast)[:70] if ok else
-                      'the unary check is not a loop over the chain of unary parents: at most one UNARY per step',
+                      verdict, 'inside `while %s` which climbs one node per iteration' % unparse(inner[-1].ast)[:70] if ok else
+                      ('the unary check is not a loop over the chain of unary parents: at most one UNARY per step'
+                       if verdict is False else 'inner loop of a shape this rule does not model'),
                       construct='gap-closure', line=a.lineno))
     for a in other_app:
-        ok = bool(closure_tests) and not cfg.can_reach(a.id, brk.id, avoid=closure_tests)
+        ok = (not cfg.can_reach(a.id, brk.id, avoid=closure_tests)) if closure_tests else None
         obs.append(Ob('R-GUARD/GAP', f.fq, 'after emission at line %d the oracle cannot stop before the unary closure ran'
                       % a.lineno, ok, 'every path to `break` passes the closure loop' if ok else
                       'the termination test is reached before the unary check: unary nodes above the last item '
@@ -437,17 +603,47 @@ def r_guard(prog, tier):
     kinds_ok = sorted(seen) == ['0', '1', '2'] and 'SHIFT' in seen['0'] and 'UNARY' in seen['1'] and 'BINARY' in seen['2']
     rz = [n for n in cfg.eval_nodes() if n.kind == 'stmt' and isinstance(n.ast, ast.Raise)
           and all(('cmp', LC, '!=', k) in [x[0] for x in facts_at(cfg, n.id)] for k in ('0', '1', '2'))]
+    verdict = True if (kinds_ok and rz and ch) else None
+    why = 'exhaustive if/elif chain with final raise' if verdict else \
+        'chain not recognised: %s, final raise %s, ordered children %s' % (seen, bool(rz), ch)
+    wrong = [(k, t) for k, t in seen.items() if not {'0': 'SHIFT', '1': 'UNARY', '2': 'BINARY'}[k] in t]
+    if wrong and ch:
+        verdict, why = False, 'arity %s emits `%s`' % (wrong[0][0], wrong[0][1][:50])
     obs.append(Ob('R-GUARD/TOPDOWN', f.fq, 'arity 0/1/2 of the ordered children map to SHIFT/UNARY/BINARY, anything else '
-                  'is refused', kinds_ok and bool(rz) and ch, 'exhaustive if/elif chain with final raise' if kinds_ok and rz and ch
-                  else 'chain incomplete: %s, final raise %s, ordered children %s' % (seen, bool(rz), ch),
-                  construct='topdown-arity', line=f.node.lineno))
-    hs = False
-    for n in walk_own(f.node):
-        if isinstance(n, ast.IfExp) and unparse(n.test) == "%s[0].data['head']" % chv \
-                and const_str(n.body) == 'LEFT' and const_str(n.orelse) == 'RIGHT':
-            hs = True
-    obs.append(Ob('R-GUARD/TOPDOWN', f.fq, 'head side is LEFT iff the first ordered child is the head', hs,
-                  "'LEFT' if <ordered children>[0].data['head'] else 'RIGHT'" if hs else 'head side expression changed',
+                  'is refused', verdict, why, construct='topdown-arity', line=f.node.lineno))
+    # head side: LEFT iff <ordered children>[0] is the head
+    from ..values import expr_cases
+    hs = None
+    hwhy = 'head side computation not recognised'
+    for a in apps:
+        if 'BINARY' not in unparse(a.ast):
+            continue
+        for x in ast.walk(a.ast):
+            if isinstance(x, ast.Name) and x.id in f.locals and x.id != chv:
+                cs = expr_cases(f, x, a.id)
+                vals = dict()
+                for c in cs:
+                    if c.kind == 'value' and const_str(c.value) in ('LEFT', 'RIGHT'):
+                        for fa in c.facts:
+                            if fa[0] == 'truthy' and fa[1].endswith("].data['head']"):
+                                vals[const_str(c.value)] = fa
+                if len(vals) == 2:
+                    l, r = vals['LEFT'], vals['RIGHT']
+                    first = "%s[0].data['head']" % chv
+                    if l == ('truthy', first, True) and r == ('truthy', first, False):
+                        hs, hwhy = True, "LEFT when %s, else RIGHT" % first
+                    elif l == ('truthy', first, False) and r == ('truthy', first, True):
+                        hs, hwhy = False, 'LEFT and RIGHT are swapped: LEFT is emitted when the first child is NOT the head'
+                    elif l[1].startswith('%s[1]' % chv) or l[1].startswith('%s[-1]' % chv):
+                        if l[2] is True:
+                            hs, hwhy = False, 'LEFT is emitted when the second child is the head'
+            elif isinstance(x, ast.IfExp) and const_str(x.body) in ('LEFT', 'RIGHT'):
+                t = norm_test(x.test, True)
+                first = "%s[0].data['head']" % chv
+                if t == ('truthy', first, True):
+                    hs = const_str(x.body) == 'LEFT' and const_str(x.orelse) == 'RIGHT'
+                    hwhy = "'%s' if %s else '%s'" % (const_str(x.body), first, const_str(x.orelse))
+    obs.append(Ob('R-GUARD/TOPDOWN', f.fq, 'head side is LEFT iff the first ordered child is the head', hs, hwhy,
                   construct='topdown-side', line=f.node.lineno, nontrivial=False))
     # ---- binarization refuses unmarked trees before reading the mark
     f = prog.func('transform', '_binarize_tree')
@@ -463,10 +659,20 @@ def r_guard(prog, tier):
     for (n, sub) in reads:
         X = unparse(sub.value)
         facts = [x[0] for x in facts_at(cfg, n.id)]
+        from ..core import expr_guards
+        facts = facts + expr_guards(f, sub)
         ok = ('haskey', X, 'head', True) in facts
+        verdict = True if ok else False
+        if not ok:
+            anytest = any(isinstance(x, ast.Compare) and isinstance(x.ops[0], (ast.In, ast.NotIn)) and const_str(x.left) == 'head'
+                          for x in walk_own(f.node))
+            hastry = any(isinstance(x, ast.Try) for x in walk_own(f.node))
+            if anytest or hastry or prog.opaque_calls(f, [root_name(sub)], before=n.id):
+                verdict = None
         obs.append(Ob('R-GUARD/BINARIZE', f.fq, 'the head mark `%s` is read only after its presence was checked' % unparse(sub),
-                      ok, 'dominated by the failure of `\'head\' not in %s` (which raises)' % X if ok else
-                      'read without the presence check: an unmarked tree gives KeyError or is binarized arbitrarily',
+                      verdict, 'dominated by the failure of `\'head\' not in %s` (which raises)' % X if ok else
+                      ('read without the presence check: an unmarked tree gives KeyError or is binarized arbitrarily'
+                       if verdict is False else 'a presence test exists but its relation to this read is not recognised'),
                       construct='bin-head', line=n.lineno))
     # plain transition writer: pos option selects the second component
     f = prog.func('transitionoutput', 'plain')
